@@ -638,7 +638,14 @@ class IMAPUserServer:
         """
         if self.management_task and not self.management_task.done():
             self.management_task.cancel()
-            await self.management_task
+            try:
+                await self.management_task
+            except asyncio.CancelledError:
+                # That is what we asked for. (Letting it escape would skip
+                # the rest of the shutdown: closing the clients, committing
+                # the mailboxes and closing the db.)
+                #
+                pass
 
         # Close all client connections
         #
